@@ -84,6 +84,13 @@ def run_case(spec):
                     res.fail(kind, '%s: update %d of %s computed for [%r,%r] '
                              'applied at %r' % (what, k + 1, name, iv['start'],
                                                 iv['end'], lst[0][1]))
+                elif lst and what == 'own' and iv['arg'] is not None and \
+                        abs(iv['start'] + iv['arg'] - lst[0][1]) > 1e-6:
+                    # the interval as the process itself was told it
+                    res.fail('off_interval', 'update %d of %s was computed for '
+                             'an interval of length %r starting at %r but was '
+                             'applied at %r' % (k + 1, name, iv['arg'],
+                                                iv['start'], lst[0][1]))
         # two ports of one process on one store: every update of each port
         twins = {p['name'] for p in spec['procs'] if p.get('twin')}
         if twins:
